@@ -8,6 +8,7 @@ from vmon.refs import txser
 from vmon.gen import scriptgen as G
 
 PROPERTY = "C04"
+PRELOAD_NETWORK_ORDERS = [["btc", "xtn", "ltc", "bch", "grs", "doge", "dash", "btg"], ["btg", "grs", "bch", "doge", "ltc", "xtn", "btc"]]
 LEVEL = "exploration"
 TECHNIQUE = "differential runtime monitor: _signature_hash / _signature_for_hash_type_segwit and the digest tapped at Generator.verify vs reference legacy/BIP143 digests, all 256 hash types per sampled (tx, input, script code)"
 RULE = ("(coin, tx, input index, script code, amount) tuples x every hash-type byte 0..255 x {legacy entry point, segwit entry point}; "
